@@ -34,6 +34,12 @@ CHECKS = {
              "Dynamic leg: every context reported for generated programs (suspended and running, 3.9-3.12) is matched to its with item "
              "through obj; start_line must be the with-keyword line and varname must be None/ast-equal/local-bound per the property." + HELD,
              "Trusted: the renderer's line/target record; ast.parse for expression equality; [x] == (x,) identified."),
+    "C09": E("exploration", "5/C09",
+             "property-based testing: generated trees of plain / generator-based managers and exit stacks with generated registration sequences; oracle = the builder's own record",
+             "Generated manager trees are entered by a frame that is then observed suspended in the body and while a chosen "
+             "manager is exiting; inner stacks, exit-stack children (count, order, sync/async kind, obj identity, description) and "
+             "their recursive unfolding are compared with what the builder recorded; 3.9-3.12." + HELD,
+             "Trusted: the builder's record; push(cm)/enter_context(cm) are indistinguishable by construction of contextlib."),
     "C10": E("exploration", "5/C10",
              "model-based property testing: generated hook worlds vs an independent scope-based reference interpretation",
              "Generated item trees and per-frame elaborate results (core space and order space) plus the fixpoint-guard family, executed "
